@@ -47,6 +47,7 @@ type HookSpec struct {
 	Action      string `json:"action,omitempty"` // "" pass | veto | replace
 	CancelAfter int    `json:"cancel_after"`
 	SameQueryAs int    `json:"same_query_as"`
+	Slow        bool   `json:"slow,omitempty"` // the hook takes a millisecond (and lets other goroutines run meanwhile)
 }
 
 // WOp is a writer operation.
@@ -90,7 +91,7 @@ func genC14(rng *rand.Rand, tier string) *C14Plan {
 		nh = 1 + rng.IntN(2)
 	}
 	for i := 0; i < nh; i++ {
-		h := HookSpec{Prefix: rng.IntN(len(prefixPool)), PreGet: rng.IntN(2) == 0, PostGet: rng.IntN(2) == 0, PrePut: rng.IntN(2) == 0, CancelAfter: -1, SameQueryAs: -1}
+		h := HookSpec{Prefix: rng.IntN(len(prefixPool)), PreGet: rng.IntN(2) == 0, PostGet: rng.IntN(2) == 0, PrePut: rng.IntN(2) == 0, CancelAfter: -1, SameQueryAs: -1, Slow: rng.IntN(3) == 0}
 		if rng.IntN(3) == 0 {
 			h.Cond = genCond(rng, 1)
 		}
@@ -179,7 +180,15 @@ func (h *hookState) UsesPrePut() bool  { return h.spec.PrePut }
 
 var errVeto = errors.New("vetoed by harness hook")
 
+// slow: a hook that takes a moment; the call is recorded when the hook body runs, after the pause.
+func (h *hookState) slow() {
+	if h.spec.Slow {
+		time.Sleep(time.Millisecond)
+	}
+}
+
 func (h *hookState) PreGet(dbKey string) error {
+	h.slow()
 	h.calls = append(h.calls, hookCall{G: simrt.GID(), Phase: "preget", Key: dbKey, Seq: simrt.Seq()})
 	if h.spec.Action == "veto" && h.spec.PreGet && !h.spec.PostGet && !h.spec.PrePut {
 		return errVeto
@@ -200,6 +209,7 @@ func idOfLocked(r record.Record) string {
 }
 
 func (h *hookState) PostGet(r record.Record) (record.Record, error) {
+	h.slow()
 	h.calls = append(h.calls, hookCall{G: simrt.GID(), Phase: "postget", Key: r.DatabaseKey(), ID: idOfLocked(r), Seq: simrt.Seq()})
 	switch h.spec.Action {
 	case "veto":
@@ -217,6 +227,7 @@ func (h *hookState) PostGet(r record.Record) (record.Record, error) {
 }
 
 func (h *hookState) PrePut(r record.Record) (record.Record, error) {
+	h.slow()
 	h.calls = append(h.calls, hookCall{G: simrt.GID(), Phase: "preput", Key: r.DatabaseKey(), ID: idOfLocked(r), Seq: simrt.Seq()})
 	switch h.spec.Action {
 	case "veto":
